@@ -1,4 +1,4 @@
-(* C17 -- node identity, equality, ordering: a node is the key (document address, id).
+(* C17 -- node identity, equality, ordering, hashing: a node is the key (document address, id).
    Statements are pinned here (copied verbatim from the proof files by tools/pin_props.py);
    each is re-proved by `exact` and followed by Print Assumptions. *)
 From Coq Require Import Ascii String.
@@ -6,7 +6,7 @@ From Coq Require Import List NArith Bool PeanoNat Sorted.
 Import ListNotations.
 From RX Require Import Generated.
 From RX.Model Require Import Base CharClass Stream Tokenizer Doc Builder Parse Api.
-From RX.Proofs Require Import OrderProofs.
+From RX.Proofs Require Import OrderProofs HashProofs.
 Open Scope N_scope.
 
 (* ---- Proofs/OrderProofs.v ---- *)
@@ -52,3 +52,25 @@ Theorem C17_sorted_groups_documents :
   forall l1 x l2 y l3 z l4, l = l1 ++ x :: l2 ++ y :: l3 ++ z :: l4 -> fst x = fst z -> fst y = fst x.
 Proof. exact sorted_groups_documents. Qed.
 Print Assumptions C17_sorted_groups_documents.
+
+
+(* the Hash clause: the words impl Hash for Node feeds the hasher (id, document address, NodeData address) are a
+   function of the node key and determine it, for any placement of the node vector (nodes_base) and any positive
+   element size: equal nodes hash equally under every Hasher; Proofs/HashProofs.v *)
+Theorem C17_equal_nodes_hash_equally :
+  forall (nodes_base : N -> N) (node_size : N) (x y : node_key),
+  node_eqb x y = true -> hash_words nodes_base node_size x = hash_words nodes_base node_size y.
+Proof. exact equal_nodes_hash_equally. Qed.
+Print Assumptions C17_equal_nodes_hash_equally.
+
+Theorem C17_hash_words_determine_node :
+  forall (nodes_base : N -> N) (node_size : N) (x y : node_key),
+  hash_words nodes_base node_size x = hash_words nodes_base node_size y -> node_eqb x y = true.
+Proof. exact hash_words_determine_node. Qed.
+Print Assumptions C17_hash_words_determine_node.
+
+Theorem C17_data_addr_injective_in_document :
+  forall (nodes_base : N -> N) (node_size : N), 0 < node_size ->
+  forall d i j : N, data_addr nodes_base node_size (d, i) = data_addr nodes_base node_size (d, j) -> i = j.
+Proof. exact data_addr_injective_in_document. Qed.
+Print Assumptions C17_data_addr_injective_in_document.
